@@ -212,6 +212,30 @@ def ad(f, x):
     return out.v, out.d
 
 
+class ImplRaised(Exception):
+    """the routine under test raised on ordinary (float / int ndarray, list) inputs: a violation"""
+
+
+class NotApplicable(Exception):
+    """the exact reference could not be formed because prysm's value routine does not accept the harness's
+    polynomial / dual-number / Fraction objects (e.g. after a refactor that forces a float dtype): not a violation;
+    the case is then covered by the model correspondence only and counted as 'exact-reference-not-applicable'"""
+
+
+def I(fn, *a, **k):
+    """call the implementation on ordinary inputs"""
+    try:
+        return fn(*a, **k)
+    except Exception as ex:
+        raise ImplRaised(f'raised {type(ex).__name__}: {ex}')
+
+
+def clear_abc_cache(J):
+    f = getattr(getattr(J, 'recurrence_abc', None), 'cache_clear', None)
+    if f is not None:
+        f()
+
+
 def _impl():
     from prysm import polynomials as P
     qp = importlib.import_module('prysm.polynomials.qpoly')
@@ -226,7 +250,7 @@ def fr(v):
 def value_poly(kind, n, params=()):
     """the value routine `kind` of order n run on the indeterminate -> QP"""
     P, qp, J = _impl()
-    J.recurrence_abc.cache_clear()
+    clear_abc_cache(J)
     try:
         if kind == 'jac':
             a, b = params
@@ -252,7 +276,7 @@ def value_poly(kind, n, params=()):
             m, t, norm = params
             return QP.lift(P.zernike_nm(n, m, X, t, norm=norm))
     finally:
-        J.recurrence_abc.cache_clear()
+        clear_abc_cache(J)
     raise C.ToolError(kind)
 
 
@@ -493,17 +517,221 @@ def alias_cases(rng, count):
     return out
 
 
+
+# ------------------------------------------------------------------------------------------------
+# argument forms: coordinate dtypes / ranks / scalars, caller-supplied `alphas` buffers
+# ------------------------------------------------------------------------------------------------
+FORMS = ['i64', 'i32', 'f32', '0d', '2d', '3d', 'f64-strided']
+SCALAR_FORMS = ['pyfloat', 'pyint', 'npfloat']          # only for the routines whose docstring promises scalars (Hermite)
+FORM_ROUTINES = ['fam', 'famseq', 'jder', 'qbfsder', 'q2dder', 'zzqbfs', 'zzqcon', 'zzq2d', 'zern', 'zernseq']
+
+
+def form_points(case):
+    """float64 reference coordinates (1-D) for the routine of the case; integer-valued when the form needs it"""
+    rt, form = case['routine'], case['form']
+    integral = form in ('i64', 'i32', 'pyint')
+    kind = case.get('kind', 'jac')
+    if rt in ('fam', 'famseq', 'jder'):
+        if integral:
+            pts = {'lag': [0, 1, 2], 'he': [-1, 0, 2], 'h': [-1, 0, 2]}.get(kind, [-1, 0, 1])
+        else:
+            pts = case['pts']
+    elif integral:
+        pts = [0, 1, 1]
+    else:
+        pts = case['upts']
+    return np.array(pts, dtype=float)
+
+
+def as_form(v, form):
+    v = np.asarray(v, dtype=float)
+    if form == 'i64':
+        return v.astype(np.int64)
+    if form == 'i32':
+        return v.astype(np.int32)
+    if form == 'f32':
+        return v.astype(np.float32)
+    if form == '0d':
+        return np.array(v.ravel()[0])
+    if form == '2d':
+        return np.stack([v, v[::-1]])
+    if form == '3d':
+        return np.stack([v, v[::-1]]).reshape(2, 1, v.size)
+    if form == 'f64-strided':
+        big = np.zeros(2 * v.size)
+        big[::2] = v
+        return big[::2]
+    if form == 'pyfloat':
+        return float(v.ravel()[0])
+    if form == 'pyint':
+        return int(v.ravel()[0])
+    if form == 'npfloat':
+        return np.float64(v.ravel()[0])
+    raise C.ToolError(form)
+
+
+def ref_form(v, form):
+    """the float64 ndarray with the same logical content / shape as as_form(v, form)"""
+    v = np.asarray(v, dtype=float)
+    if form in ('0d', 'pyfloat', 'pyint', 'npfloat'):
+        return np.array(v.ravel()[0])
+    if form == '2d':
+        return np.stack([v, v[::-1]])
+    if form == '3d':
+        return np.stack([v, v[::-1]]).reshape(2, 1, v.size)
+    return v.copy()
+
+
+def form_call(case, P, qp, J):
+    """fn(coords...) for the routine of the case; coords is (x,) or (r, t)"""
+    rt = case['routine']
+    cs, cs2, j, m = case['cs'], case['cs2'], case['j'], case['m']
+    if rt == 'fam':
+        return lambda x: fam_der(P, case['kind'], case['n'], tuple(case['params']), x), 1
+    if rt == 'famseq':
+        return lambda x: getattr(P, FAM_SEQ[case['kind']])(case['ns'], *case['params'], x), 1
+    if rt == 'jder':
+        return lambda x: J.jacobi_sum_clenshaw_der(cs, case['alpha'], case['beta'], x, j=j), 1
+    if rt == 'qbfsder':
+        return lambda u: qp.clenshaw_qbfs_der(cs, u * u, j=j), 1
+    if rt == 'q2dder':
+        return lambda u: qp.clenshaw_q2d_der(cs, m, u * u, j=j), 1
+    if rt == 'zzqbfs':
+        return lambda u: np.array(qp.compute_z_zprime_Qbfs(cs, u, u * u)), 1
+    if rt == 'zzqcon':
+        return lambda u: np.array(qp.compute_z_zprime_Qcon(cs, u, u * u)), 1
+    if rt == 'zzq2d':
+        pad = [[] for _ in range(m - 1)]
+        cm0 = None if case.get('cm0_none') else cs
+        return lambda u, t: np.array(qp.compute_z_zprime_Q2d(cm0, pad + [cs2], pad + [cs], u, t)), 2
+    if rt == 'zern':
+        return lambda r, t: np.array(P.zernike_nm_der(case['zn'], case['zm'], r, t, norm=case['norm'])), 2
+    if rt == 'zernseq':
+        return lambda r, t: np.array(P.zernike_nm_der_seq([tuple(q) for q in case['nms']], r, t, norm=case['norm'])), 2
+    raise C.ToolError(rt)
+
+
+def pred_forms(case):
+    """(coords) the routine on int / float32 / 0-d / 2-D / scalar coordinates must return what it returns on the float64
+    array with the same values;  (buffer) with a caller-supplied `alphas` buffer, zeroed or dirty, the routine must return
+    the same table as without one and leave it in the buffer"""
+    P, qp, J = _impl()
+    if case['item'] == 'signedm':
+        cs, j, m = case['cs'], case['j'], case['m']
+        usq = np.array(case['upts'], dtype=float) ** 2
+        exp = np.array(qp.clenshaw_q2d_der(cs, m, usq, j=j), dtype=float)
+        got = np.array(qp.clenshaw_q2d_der(cs, -m, usq, j=j), dtype=float)
+        sc = float(np.max(np.abs(exp))) if exp.size else 0.0
+        return (got.shape == exp.shape and close(got, exp, extra_scale=sc)), (
+            f'clenshaw_q2d_der(m=-{m}) table {np.ravel(got)[:4]}; with m=+{m} (the radial polynomials are those of |m|) {np.ravel(exp)[:4]}')
+    if case['item'] == 'buffer':
+        rt, cs, j, m = case['routine'], case['cs'], case['j'], case['m']
+        x = np.array(case['pts'] if rt == 'jder' else case['upts'], dtype=float)
+        if case.get('rank2'):
+            x = np.stack([x, x[::-1]])
+        if rt == 'jder':
+            fn = lambda **kw: J.jacobi_sum_clenshaw_der(cs, case['alpha'], case['beta'], x, j=j, **kw)   # noqa: E731
+        elif rt == 'qbfsder':
+            fn = lambda **kw: qp.clenshaw_qbfs_der(cs, x * x, j=j, **kw)                                  # noqa: E731
+        elif rt == 'q2dder':
+            fn = lambda **kw: qp.clenshaw_q2d_der(cs, m, x * x, j=j, **kw)                                # noqa: E731
+        elif rt == 'jsum':
+            fn = lambda **kw: J.jacobi_sum_clenshaw(cs, case['alpha'], case['beta'], x, **kw)             # noqa: E731
+        elif rt == 'qbfs':
+            fn = lambda **kw: qp.clenshaw_qbfs(cs, x * x, **kw)                                           # noqa: E731
+        elif rt == 'q2dalphas':
+            fn = lambda **kw: qp.clenshaw_q2d(cs, m, x * x, **kw)                                         # noqa: E731
+        else:
+            raise C.ToolError(rt)
+        exp = np.array(fn(), dtype=float)
+        shape = ((j + 1, len(cs), *x.shape) if rt in ('jder', 'qbfsder', 'q2dder') else (len(cs), *x.shape))
+        buf = np.full(shape, 7.25 if case['fill'] == 'dirty' else 0.0)
+        got = np.array(fn(alphas=buf), dtype=float)
+        sc = float(np.max(np.abs(exp))) if exp.size else 0.0
+        if got.shape != exp.shape or not close(got, exp, extra_scale=sc):
+            return False, (f'{rt} with a {case["fill"]} caller-supplied alphas buffer returns {np.ravel(got)[:4]}; '
+                           f'without a buffer {np.ravel(exp)[:4]}')
+        if rt in ('jder', 'qbfsder', 'q2dder', 'q2dalphas'):      # these return the table itself
+            if not close(buf, exp, extra_scale=sc):
+                return False, f'{rt}: the documented alphas buffer was not filled with the table (buffer {np.ravel(buf)[:4]}, table {np.ravel(exp)[:4]})'
+        else:                                                      # the value sweeps return alphas[0] / the surface
+            al = np.array(buf, dtype=float)
+            if rt == 'jsum' and not close(al[0], exp, extra_scale=sc):
+                return False, 'jsum: alphas[0] of the supplied buffer is not the returned sum'
+        return True, ''
+    fn, ncoord = form_call(case, P, qp, J)
+    form = case['form']
+    v = form_points(case)
+    tv = np.array(case['tpts'], dtype=float)[:v.size]
+    if form in ('i64', 'i32', 'pyint'):
+        tv = np.round(tv)
+    coords = [v] if ncoord == 1 else [v, tv]
+    exp = np.array(fn(*[ref_form(c, form) for c in coords]), dtype=float)
+    got = np.array(fn(*[as_form(c, form) for c in coords]), dtype=float)
+    tol = 1e-4 if form == 'f32' else TOL
+    sc = float(np.max(np.abs(exp))) if exp.size else 0.0
+    if got.shape != exp.shape:
+        return False, f'{case["routine"]} on {form} coordinates: shape {got.shape}, on the float64 array {exp.shape}'
+    if not close(got, exp, tol, extra_scale=sc):
+        return False, (f'{case["routine"]} on {form} coordinates {np.ravel(as_form(v, form))[:3] if form not in SCALAR_FORMS else as_form(v, form)}: '
+                       f'{np.ravel(got)[:4]}; on the float64 array with the same values: {np.ravel(exp)[:4]}')
+    return True, ''
+
+
+def form_cases(rng, count, thorough=False):
+    kinds = [('he', ()), ('h', ()), ('lag', (0.5,)), ('jac', (0.5, 1.5)), ('jac', (0.0, 0.0)), ('legendre', ()), ('cheby1', ()),
+             ('cheby2', ()), ('cheby3', ()), ('cheby4', ())]
+    out = []
+    i = 0
+    while len(out) < count:
+        rt = FORM_ROUTINES[i % len(FORM_ROUTINES)]
+        kind, params = kinds[(i // len(FORM_ROUTINES)) % len(kinds)]
+        allowed = FORMS + (SCALAR_FORMS if (rt in ('fam', 'famseq') and kind in ('he', 'h')) else [])
+        form = allowed[(i // 3) % len(allowed)]
+        n = int(rng.integers(1, 6))
+        cs = [float(int(v)) / 2 for v in rng.integers(-6, 7, n)]
+        if not any(cs):
+            cs[-1] = 1.0
+        a, b = AB[i % len(AB)]
+        zn = int(rng.integers(0, 7))
+        zm = int(rng.choice(range(-zn, zn + 1, 2)))
+        case = {'item': 'coords', 'routine': rt, 'form': form, 'kind': kind, 'params': list(params), 'n': int(rng.integers(0, 9)),
+                'ns': [[0, 1, 2, 3], [1, 4], [0], [2, 3, 7], [0, 5, 6]][i % 5], 'cs': cs,
+                'cs2': [float(int(v)) / 2 for v in rng.integers(-6, 7, int(rng.integers(1, 6)))],
+                'alpha': a, 'beta': b, 'j': 1 + (i // 7) % 3, 'm': 1 + (i // 5) % 3, 'zn': zn, 'zm': zm, 'norm': bool(i % 2),
+                'nms': [[2, 0], [1, 1], [3, -1], [2, -2]][: 1 + i % 4], 'cm0_none': bool(rt == 'zzq2d' and i % 4 == 0),
+                'pts': [float(v) for v in (rng.uniform(0.05, 2.5, 3) if kind == 'lag' else rng.uniform(-0.9, 0.9, 3))],
+                'upts': [float(v) for v in rng.uniform(0.05, 0.95, 3)], 'tpts': [float(v) for v in rng.uniform(0, 6, 3)]}
+        out.append(case)
+        i += 1
+    return out
+
+
+def buffer_cases(rng, count):
+    out = []
+    for i in range(count):
+        rt = ['jder', 'qbfsder', 'q2dder', 'jsum', 'qbfs', 'q2dalphas'][i % 6]
+        n = int(rng.integers(1, 7))
+        a, b = AB[i % len(AB)]
+        out.append({'item': 'buffer', 'routine': rt, 'fill': ['dirty', 'zero'][(i // 6) % 2], 'cs': [float(v) for v in rng.uniform(-1, 1, n)],
+                    'j': 1 + (i // 3) % 4, 'm': 1 + (i // 5) % 3, 'alpha': a, 'beta': b, 'rank2': bool((i // 12) % 2),
+                    'pts': [float(v) for v in rng.uniform(-0.9, 0.9, 2)], 'upts': [float(v) for v in rng.uniform(0.05, 0.95, 2)]})
+    return out
+
+
 def pred(case):
     """(ok, detail): is the derivative routine the formal derivative of the value routine on this input?"""
     P, qp, J = _impl()
     it = case['item']
     try:
         if it == 'alias':
-            return pred_alias(case)
+            return I(pred_alias, case)
+        if it in ('coords', 'buffer', 'signedm'):
+            return I(pred_forms, case)
         if it == 'jder':
             s, a, b, j = case['s'], case['alpha'], case['beta'], case['j']
             x = np.asarray(case['x'], dtype=float)
-            al = J.jacobi_sum_clenshaw_der(s, a, b, x, j=j)
+            al = I(J.jacobi_sum_clenshaw_der, s, a, b, x, j=j)
             tot = QP([0])
             for n, c in enumerate(s):
                 if c:
@@ -517,7 +745,7 @@ def pred(case):
         if it == 'qbfsder':
             cs, j = case['cs'], case['j']
             u = np.asarray(case['u'], dtype=float)
-            al = qp.clenshaw_qbfs_der(cs, u * u, j=j)
+            al = I(qp.clenshaw_qbfs_der, cs, u * u, j=j)
             S = qbfs_S_poly(qp, cs)
             for jj in range(j + 1):
                 exp = np.array([float(S.deriv(jj)(fr(v) * fr(v))) for v in u.ravel()])
@@ -529,7 +757,7 @@ def pred(case):
         if it == 'q2dder':
             cs, m, j = case['cs'], case['m'], case['j']
             u = np.asarray(case['u'], dtype=float)
-            al = qp.clenshaw_q2d_der(cs, m, u * u, j=j)
+            al = I(qp.clenshaw_q2d_der, cs, m, u * u, j=j)
             S = q2d_S_poly(cs, m)
             for jj in range(j + 1):
                 exp = np.array([float(S.deriv(jj)(fr(v) * fr(v))) for v in u.ravel()])
@@ -541,41 +769,41 @@ def pred(case):
         if it == 'fam':
             kind, n, params = case['kind'], case['n'], tuple(case['params'])
             x = np.asarray(case['x'], dtype=float)
-            got = np.asarray(fam_der(P, kind, n, params, x), dtype=float)
+            got = np.asarray(I(fam_der, P, kind, n, params, x), dtype=float)
             dp = value_poly(kind, n, params).deriv()
             exp = np.array([float(dp(v)) for v in x.ravel()]).reshape(x.shape)
             return (got.shape == x.shape and close(got, exp)), f'{FAM_DER[kind]}({n})={got.ravel()[:3]} formal derivative={exp.ravel()[:3]}'
         if it == 'famseq':
             kind, ns, params = case['kind'], case['ns'], tuple(case['params'])
             x = np.asarray(case['x'], dtype=float)
-            got = np.asarray(getattr(P, FAM_SEQ[kind])(ns, *params, x), dtype=float)
-            exp = np.asarray([fam_der(P, kind, n, params, x) for n in ns], dtype=float)
+            got = np.asarray(I(getattr(P, FAM_SEQ[kind]), ns, *params, x), dtype=float)
+            exp = np.asarray([I(fam_der, P, kind, n, params, x) for n in ns], dtype=float)
             ok = got.shape == (len(ns), *x.shape) and close(got, exp)
             return ok, f'{FAM_SEQ[kind]}({ns}) shape {got.shape} differs from one-at-a-time evaluation'
         if it == 'zern':
             n, m, norm = case['n'], case['m'], case['norm']
             r = np.asarray(case['r'], dtype=float)
             t = np.asarray(case['t'], dtype=float)
-            dr, dt = P.zernike_nm_der(n, m, r, t, norm=norm)
+            dr, dt = I(P.zernike_nm_der, n, m, r, t, norm=norm)
             edr = np.array([float(value_poly('zern', n, (m, float(tv), norm)).deriv()(rv)) for rv, tv in zip(r.ravel(), t.ravel())])
             if m == 0:
                 edt = np.zeros(r.size)
             else:
-                edt = (-m) * np.asarray(P.zernike_nm(n, -m, r, t, norm=norm), dtype=float).ravel()
+                edt = (-m) * np.asarray(I(P.zernike_nm, n, -m, r, t, norm=norm), dtype=float).ravel()
             ok = close(np.ravel(dr), edr) and close(np.ravel(dt), edt)
             return ok, f'dr={np.ravel(dr)[:3]} formal={edr[:3]} dt={np.ravel(dt)[:3]} expected={edt[:3]}'
         if it == 'zernseq':
             nms = [tuple(p) for p in case['nms']]
             r = np.asarray(case['r'], dtype=float)
             t = np.asarray(case['t'], dtype=float)
-            got = np.asarray(P.zernike_nm_der_seq(nms, r, t, norm=case['norm']), dtype=float)
-            exp = np.asarray([P.zernike_nm_der(n, m, r, t, norm=case['norm']) for n, m in nms], dtype=float)
+            got = np.asarray(I(P.zernike_nm_der_seq, nms, r, t, norm=case['norm']), dtype=float)
+            exp = np.asarray([I(P.zernike_nm_der, n, m, r, t, norm=case['norm']) for n, m in nms], dtype=float)
             return (got.shape == exp.shape and close(got, exp)), 'zernike_nm_der_seq differs from one-at-a-time evaluation'
         if it in ('zzqbfs', 'zzqcon'):
             cs = case['cs']
             u = np.asarray(case['u'], dtype=float)
             fn = qp.compute_z_zprime_Qbfs if it == 'zzqbfs' else qp.compute_z_zprime_Qcon
-            S, Sp = fn(cs, u, u * u)
+            S, Sp = I(fn, cs, u, u * u)
             tot = QP([0])
             for n, c in enumerate(cs):
                 if c:
@@ -587,7 +815,7 @@ def pred(case):
         if it == 'zzq2d':
             u = np.asarray(case['u'], dtype=float)
             t = np.asarray(case['t'], dtype=float)
-            z, dr, dt = qp.compute_z_zprime_Q2d(case['cm0'], case['ams'], case['bms'], u, t)
+            z, dr, dt = I(qp.compute_z_zprime_Q2d, case['cm0'], case['ams'], case['bms'], u, t)
             ez, edr, edt = [], [], []
             for uv, tv in zip(u.ravel(), t.ravel()):
                 zp, dtp = q2d_sag_poly(case['cm0'], case['ams'], case['bms'], float(tv))
@@ -601,8 +829,12 @@ def pred(case):
             return pred_surface(case)
     except C.ToolError:
         raise
-    except Exception as ex:
-        return False, f'raised {type(ex).__name__}: {ex}'
+    except ImplRaised as ex:
+        return False, str(ex)
+    except NotApplicable:
+        raise
+    except Exception as ex:       # raised while forming the exact reference on polynomial / dual-number objects
+        raise NotApplicable(f'{it}: {type(ex).__name__}: {ex}')
     raise C.ToolError(f'unknown item {it}')
 
 
@@ -635,25 +867,25 @@ def pred_surface(case):
     if it == 'sconic':
         rho = np.asarray(case['rho'], dtype=float)
         if case.get('sphere'):
-            got = S.sphere_sag_der(c, rho)
+            got = I(S.sphere_sag_der, c, rho)
             exp = [ad(lambda r: S.sphere_sag(c, r * r), v)[1] for v in rho]
             name = 'sphere_sag_der'
         else:
-            got = S.conic_sag_der(c, k, rho)
+            got = I(S.conic_sag_der, c, k, rho)
             exp = [ad(lambda r: S.conic_sag(c, k, r * r), v)[1] for v in rho]
             name = 'conic_sag_der'
         return close(got, exp), f'{name}={np.ravel(got)[:3]} derivative of the sag={np.asarray(exp)[:3]}'
     if it == 'sdircos':
         rho = np.asarray(case['rho'], dtype=float)
-        got = S.der_direction_cosine_spheroid(c, k, rho)
+        got = I(S.der_direction_cosine_spheroid, c, k, rho)
         exp = [ad(lambda r: 1 / S.phi_spheroid(c, k, r * r), v)[1] for v in rho]
         return close(got, exp), f'der_direction_cosine_spheroid={np.ravel(got)[:3]} derivative of 1/phi={np.asarray(exp)[:3]}'
     r = np.asarray(case['r'], dtype=float)
     t = np.asarray(case['t'], dtype=float)
     dx, dy = case['dx'], case['dy']
     if it == 'soac':
-        dr, dt = S.off_axis_conic_der(c, k, r, t, dx, dy)
-        sr, st = S.off_axis_conic_sigma_der(c, k, r, t, dx, dy)
+        dr, dt = I(S.off_axis_conic_der, c, k, r, t, dx, dy)
+        sr, st = I(S.off_axis_conic_sigma_der, c, k, r, t, dx, dy)
         edr = [ad(lambda q: S.off_axis_conic_sag(c, k, q, tv, dx, dy), rv)[1] for rv, tv in zip(r, t)]
         edt = [ad(lambda q: S.off_axis_conic_sag(c, k, rv, q, dx, dy), tv)[1] for rv, tv in zip(r, t)]
         esr = [ad(lambda q: 1 / S.off_axis_conic_sigma(c, k, q, tv, dx, dy), rv)[1] for rv, tv in zip(r, t)]
@@ -664,7 +896,7 @@ def pred_surface(case):
     if it == 'sq2d':
         Rn = case['R']
         x, y = (r * np.cos(t))[None, :], (r * np.sin(t))[None, :]
-        z, zr, zt = S.Q2d_and_der(case['cm0'], case['ams'], case['bms'], x, y, Rn, c, k, dx, dy)
+        z, zr, zt = I(S.Q2d_and_der, case['cm0'], case['ams'], case['bms'], x, y, Rn, c, k, dx, dy)
 
         def val(rv, tv):
             return q2d_value(qp, case['cm0'], case['ams'], case['bms'], rv / Rn, tv) / S.off_axis_conic_sigma(c, k, rv, tv, dx, dy) \
@@ -676,6 +908,18 @@ def pred_surface(case):
         return ok, (f'Q2d_and_der=({np.ravel(z)[:2]}, {np.ravel(zr)[:2]}, {np.ravel(zt)[:2]}) sag and its derivatives='
                     f'({np.asarray(ez)[:2]}, {np.asarray(ezr)[:2]}, {np.asarray(ezt)[:2]})')
     raise C.ToolError(it)
+
+
+def pred_safe(case, ctx=None):
+    """pred, with 'the exact reference could not be formed on the harness's exotic objects' turned into a note"""
+    try:
+        return pred(case)
+    except NotApplicable as ex:
+        if ctx is not None:
+            ctx.filtered_known['exact-reference-not-applicable'] += 1
+            if len(ctx.notes) < 5:
+                ctx.notes.append(f'exact reference not applicable ({ex}); case covered by the model correspondence only')
+        return True, f'not evaluated: {ex}'
 
 
 # ------------------------------------------------------------------------------------------------
@@ -749,7 +993,7 @@ def correspondence(ctx):
     rng = ctx.rng
     for case in corpus_cases():     # minimised inputs that failed on the pinned tree: always run first
         ctx.case(case['item'], case, nontrivial=True, tag='corpus')
-        ok_, detail_ = pred(case)
+        ok_, detail_ = pred_safe(case, ctx)
         if not ok_:
             ctx.pred_fail(case['item'], case, detail_)
     nmax = ctx.scale(10, 12)
@@ -762,7 +1006,7 @@ def correspondence(ctx):
         todo.append(fn)
 
     def run_pred(item, case):
-        ok, detail = pred(case)
+        ok, detail = pred_safe(case, ctx)
         if not ok:
             ctx.pred_fail(item, case, detail)
 
@@ -801,7 +1045,7 @@ def correspondence(ctx):
                 add(f'{"q" if exact else "f"} jder {j} {w(a)} {w(b)} {w(xv)} {wl(s, w)}', chk)
 
     # exact: Fraction object arrays through prysm's own code
-    J.recurrence_abc.cache_clear()
+    clear_abc_cache(J)
     for ci, (n, kind, pos) in enumerate(coef_cases(rng, ctx.scale(7, 10))):
         j = 1 + ci % 4
         s = [Fraction(int(round(v * 12)), 12) for v in coef_vector(rng, n, kind, pos)]
@@ -813,6 +1057,8 @@ def correspondence(ctx):
         ctx.case('jder-exact', case, nontrivial=True, tag=f'j{j}/{kind}')
         try:
             tab = J.jacobi_sum_clenshaw_der(s, a, b, np.array(xs, dtype=object), j=j)
+            if not all(isinstance(v, (Fraction, int)) for v in np.ravel(tab)):
+                raise TypeError('the result left exact arithmetic (a float dtype is forced somewhere on the path)')
         except Exception as ex:
             tab = f'raised {type(ex).__name__}: {ex}'
         for k, xv in enumerate(xs):
@@ -820,9 +1066,10 @@ def correspondence(ctx):
                 rows, formal = rep.split('|')
                 mt = [Fraction(v) for v in rows.split()]
                 mf = [Fraction(v) for v in formal.split()]
-                if isinstance(tab, str):
-                    ctx.disagree('jder-exact', case, tab, 'table')
-                    ctx.pred_fail('jder-exact', case, tab)
+                if isinstance(tab, str):       # prysm does not run on Fraction object arrays (any more): exact stream not applicable
+                    ctx.filtered_known['exact-stream-not-applicable'] += 1
+                    if len(ctx.notes) < 5:
+                        ctx.notes.append(f'jder-exact not applicable: {tab}')
                     return
                 for jj in range(j + 1):
                     for i in range(n):
@@ -833,7 +1080,7 @@ def correspondence(ctx):
                         ctx.pred_fail('jder-exact', case, f'alphas[{jj}][0] = {tab[jj][0][k]} but the {jj}-th derivative of the sum is {mf[jj]}')
                         return
             add(f'q jder {j} {C.q2w(a)} {C.q2w(b)} {C.q2w(xv)} {wl(s, C.q2w)}', chk)
-    J.recurrence_abc.cache_clear()
+    clear_abc_cache(J)
 
     # ------------------------------------------------ clenshaw_qbfs_der / clenshaw_q2d_der
     for ci, (n, kind, pos) in enumerate(cc * ctx.scale(5, 24)):
@@ -909,8 +1156,8 @@ def correspondence(ctx):
     orders = list(range(0, ctx.scale(17, 31)))
     for fi, (kind, params) in enumerate(fams):
         lo, hi = (0.05, 3.0) if kind == 'lag' else (-1.5, 1.5) if kind in ('he', 'h') else (-0.95, 0.95)
-        for n in orders:
-            if not ctx.thorough and n > 6 and (n + fi) % 3:
+        for n in list(orders) + ([] if ctx.thorough else [20, 25, 30]):
+            if not ctx.thorough and 6 < n < 20 and (n + fi) % 3:
                 continue
             x = rng.uniform(lo, hi, (2, 2) if n % 2 else 3)
             case = {'item': 'fam', 'kind': kind, 'n': n, 'params': list(params), 'x': x.tolist()}
@@ -934,7 +1181,8 @@ def correspondence(ctx):
                             ctx.disagree('fam', case, 'model closed form', f'{der} != model formal derivative {formal}', 'model self-check')
                     add(f'{"q" if exact else "f"} fam {mk} {n} ' + ' '.join(w(p) for p in mp) + (' ' if mp else '') + w(xv), chk)
         # sequence forms: gapped / not starting at 0 / singleton / contiguous
-        for ns in ([0, 1, 2, 3, 4], [0], [1], [2, 5, 9], [0, 3], [1, 2, 7, 8, 12], [4], [0, 1], [3, 4, 5, 6]):
+        for ns in ([0, 1, 2, 3, 4], [0], [1], [2, 5, 9], [0, 3], [1, 2, 7, 8, 12], [4], [0, 1], [3, 4, 5, 6], [0, 13, 20, 25],
+                   [14, 15, 16], [2, 3], [3], [11, 22, 30] if ctx.thorough else [17, 24]):
             x = rng.uniform(lo, hi, 5) if kind.startswith('cheby') else rng.uniform(lo, hi, (2, 3))
             case = {'item': 'famseq', 'kind': kind, 'ns': ns, 'params': list(params), 'x': x.tolist()}
             ctx.case('famseq', case, nontrivial=True, tag=f'{kind}/{"start0" if ns[0] == 0 else "start1" if ns[0] == 1 else "start2+"}')
@@ -947,16 +1195,24 @@ def correspondence(ctx):
             case = {'item': 'fam-exact', 'kind': kind, 'n': n, 'x': [str(v) for v in xs]}
             ctx.case('fam-exact', case, nontrivial=True, tag=kind)
             try:
-                got = [Fraction(v) for v in fn(n, np.array(xs, dtype=object))]
+                got = list(np.ravel(fn(n, np.array(xs, dtype=object))))
+                if not all(isinstance(v, (Fraction, int)) for v in got):
+                    raise TypeError('the result left exact arithmetic (a float dtype is forced somewhere on the path)')
+                got = [Fraction(v) for v in got]
             except Exception as ex:
                 got = f'raised {type(ex).__name__}: {ex}'
             for k, xv in enumerate(xs):
                 def chk(rep, case=case, got=got, k=k):
                     der, formal, _ = (Fraction(v) for v in rep.split())
-                    if isinstance(got, str) or got[k] != der:
+                    if isinstance(got, str):
+                        ctx.filtered_known['exact-stream-not-applicable'] += 1
+                        if len(ctx.notes) < 5:
+                            ctx.notes.append(f'fam-exact not applicable: {got}')
+                        return
+                    if got[k] != der:
                         ctx.disagree('fam-exact', case, str(got if isinstance(got, str) else got[k]), str(der))
-                    if isinstance(got, str) or got[k] != formal:
-                        ctx.pred_fail('fam-exact', case, f'{got if isinstance(got, str) else got[k]} is not the derivative {formal}')
+                    if got[k] != formal:
+                        ctx.pred_fail('fam-exact', case, f'{got[k]} is not the derivative {formal}')
                 add(f'q fam {kind} {n} {C.q2w(xv)}', chk)
 
     # ------------------------------------------------ Zernike
@@ -1159,6 +1415,18 @@ def correspondence(ctx):
         ctx.case('alias', case, nontrivial=True, tag=f'{case["path"]}/{case["container"]}')
         run_pred('alias', case)
 
+    # ------------------------------------------------ coordinate dtypes / ranks / scalars; caller-supplied alphas buffers
+    for case in form_cases(rng, ctx.scale(500, 5000)):
+        ctx.case('coords', case, nontrivial=True, tag=f'{case["routine"]}/{case["form"]}')
+        run_pred('coords', case)
+    for case in buffer_cases(rng, ctx.scale(120, 1200)):
+        ctx.case('buffer', case, nontrivial=True, tag=f'{case["routine"]}/{case["fill"]}')
+        run_pred('buffer', case)
+        if case['routine'] == 'q2dder':
+            sm = dict(case, item='signedm')
+            ctx.case('signedm', sm, nontrivial=True, tag=f'm=-{sm["m"]}')
+            run_pred('signedm', sm)
+
     # ------------------------------------------------ conic base surfaces and Q2d_and_der (x/raytracing/surfaces.py)
     S = _surf()
     kappas = [-2.5, -1.0, -0.7, 0.0, 0.6, 1.3]
@@ -1311,11 +1579,11 @@ def search(ctx, hints):
     import os
     for path in sorted(glob.glob(os.path.join(C.VERIF, 'corpus', 'C09', '*.json'))):
         case = json.load(open(path))
-        ok, detail = pred(case)
+        ok, detail = pred_safe(case)
         if not ok:
             return {'item': case['item'], 'input': case, 'detail': detail}
     for case in _small_cases():
-        ok, detail = pred(case)
+        ok, detail = pred_safe(case)
         if not ok:
             return {'item': case['item'], 'input': case, 'detail': detail}
     rng = np.random.Generator(np.random.PCG64(ctx.seed + 2000))
@@ -1328,12 +1596,12 @@ def search(ctx, hints):
                      {'item': 'qbfsder', 'cs': s, 'u': [0.4, 0.9], 'j': j},
                      {'item': 'q2dder', 'cs': s, 'm': int(rng.integers(1, 5)), 'u': [0.4, 0.9], 'j': j},
                      {'item': 'zzqbfs', 'cs': s, 'u': [0.4, 0.9]}, {'item': 'zzqcon', 'cs': s, 'u': [0.4, 0.9]}):
-            ok, detail = pred(case)
+            ok, detail = pred_safe(case)
             if not ok:
                 return {'item': case['item'], 'input': case, 'detail': detail}
         cm0, ams, bms = q2d_content(rng, ['cos', 'sin', 'mixed', 'holes', 'ragged', 'm1long', 'len1'][int(rng.integers(7))], 3, 5)
         case = {'item': 'zzq2d', 'cm0': cm0, 'ams': ams, 'bms': bms, 'u': [0.45], 't': [1.1]}
-        ok, detail = pred(case)
+        ok, detail = pred_safe(case)
         if not ok:
             return {'item': 'zzq2d', 'input': case, 'detail': detail}
     return None
@@ -1346,7 +1614,7 @@ def replay(inp):
         s = [Fraction(v) for v in case['s']]
         xs = [Fraction(v) for v in case['x']]
         a, b, j = Fraction(case['alpha']), Fraction(case['beta']), case['j']
-        J.recurrence_abc.cache_clear()
+        clear_abc_cache(J)
         try:
             tab = J.jacobi_sum_clenshaw_der(s, a, b, np.array(xs, dtype=object), j=j)
             tot = QP([0])
@@ -1363,7 +1631,7 @@ def replay(inp):
             print('raised', ex)
             return True
         finally:
-            J.recurrence_abc.cache_clear()
+            clear_abc_cache(J)
     if case['item'] == 'fam-exact':
         fn = P.hermite_He_der if case['kind'] == 'he' else P.hermite_H_der
         xs = [Fraction(v) for v in case['x']]
@@ -1376,8 +1644,8 @@ def replay(inp):
         except Exception as ex:
             print('raised', ex)
             return True
-    ok, detail = pred(case)
-    print('replaying', case['item'], '->', 'property holds' if ok else f'VIOLATED: {detail}')
+    ok, detail = pred_safe(case)
+    print('replaying', case['item'], '->', ('property holds' if not detail else detail) if ok else f'VIOLATED: {detail}')
     return not ok
 
 
@@ -1387,30 +1655,49 @@ MANIFEST_ENTRY = {
                  'seed/step/index/closed-form definitions, plus Float and exact-rational correspondence runs and an exact '
                  'formal-derivative / automatic-differentiation predicate on prysm\'s own value routines',
     'text': ('PROVED for all inputs (Props/C09.lean, standard axioms; "derivative" = Polynomial.derivative of the value routine run on the '
-             'indeterminate, evaluated at the point; real HasDerivAt for the surfaces): (1) clenshaw_der_correct / clenshaw_der_entries - '
-             'every three-term family over a field, every coefficient list of any length, every derivative order j, every point: row j of the '
-             'table consists of the j-th derivatives of the polynomials alpha_n(X) and its read-out is the j-th derivative of sum s_n p_n(X); '
-             'instances jacobi_sum_clenshaw_der, clenshaw_qbfs_der, clenshaw_q2d_der (incl. the m = 1 correction); '
-             'table_zero_above_degree + seed_is_recurrence justify the seed at index M-jj. (2) jacobi_der for EVERY order and all '
-             'alpha+beta not in {-2,-3,...} (via the contiguous relation P_n^(a,b) = u_n M_n + v_n M_{n-1} + w_n M_{n-2}, M = P^(a+1,b+1), '
-             'proved by induction from the two recurrences, then the differentiated recurrence); instances legendre_der, the Chebyshev '
-             'parameter pairs, Zernike/Qcon (0,m). (3) hermiteHe_der, hermiteH_der, laguerre_der: every order (Laguerre: every shape). '
-             '(4) zernike_der_radial_correct: the radial output of zernike_nm_der is znorm * d/dr[r^|m| P(2r^2-1)] * trig for every (n,m), '
-             'every point; zernike_azimuthal_real. (5) qbfs_sag_slope, qcon_sag_slope: compute_z_zprime_Qbfs/_Qcon return (sag polynomial, '
-             'its derivative) for every coefficient list (length 1 included). (6) q2d_radial_slope / q2d_azimuthal_slope (any commutative '
-             'ring with a derivation; hypotheses instantiated in Q[X]) and q2d_azimuthal_slope_real (real cos/sin). (7) x/raytracing/'
-             'surfaces.py: conic_sag_der_correct (sphere, conic), dir_cos_der_correct, off_axis_conic_der_correct, '
-             'off_axis_conic_sigma_der_correct (HasDerivAt in r and in t, shift along x or y, wherever the radicands are positive), '
-             'q2d_and_der_correct (product rule through u = rho/R). TRANSLATED from the current source each run and proved equal to the '
-             'model (gen_* theorems): seed expression / position M-jj / factor jj (quantified over the requested order j), step, read-write '
-             'indices, loop-start window, coefficient orders and tuple positions, jj > M guard, row 0 = value sweep for the three derivative '
+             'indeterminate, evaluated at the point; real HasDerivAt for the surfaces and the trigonometric factors): (1) clenshaw_der_correct / '
+             'clenshaw_der_entries - every three-term family over a field, every coefficient list of any length, every derivative order j, '
+             'every point: row j of the table consists of the j-th derivatives of the polynomials alpha_n(X) and its read-out is the j-th '
+             'derivative of sum s_n p_n(X); instances jacobi_sum_clenshaw_der, clenshaw_qbfs_der, clenshaw_q2d_der (incl. the m = 1 '
+             'correction); table_zero_above_degree + seed_is_recurrence justify the seed at index M-jj (the model builds a fresh table; that '
+             'the source zeroes the entries above M-jj of a caller buffer is a translated write set + the executed buffer item). '
+             '(2) jacobi_der for EVERY order and all alpha+beta not in {-2,-3,...} (contiguous relation proved by induction, then the '
+             'differentiated recurrence); instances legendre_der, the Chebyshev parameter pairs, Zernike/Qcon (0,m). (3) hermiteHe_der, '
+             'hermiteH_der, laguerre_der: every order (Laguerre: every shape). (4) zernike_nm_der, statements about the model routine '
+             'zernikeDer itself: zernike_der_radial_correct (radial output = znorm * d/dr[r^|m| P(2r^2-1)] * trig, every (n,m), every point) '
+             'and zernike_der_azimuthal_correct (azimuthal output = d/dt of znorm * R * (cos(mt) | sin(|m|t) | 1), real cos/sin, sign and '
+             '|m|-vs-m choice of both branches); zernike_radial / zernike_azimuthal(_real) are generic calculus rules used by these, NOT '
+             'statements about the routine. (5) qbfs_sag_slope, qcon_sag_slope: the second output of compute_z_zprime_Qbfs/_Qcon is the '
+             'derivative of the polynomial that the first output evaluates (conjunct 1 is only "evaluation commutes with the routine"; the '
+             'content is conjunct 2 + the closed form of that polynomial), every coefficient list (length 1 included); over the '
+             'changed-basis coefficients - the link to Qbfs/Qcon is C10. (6) 2D-Q: per azimuthal order q2d_radial_slope / '
+             'q2d_azimuthal_slope(_real); LIST LEVEL q2d_slopes_list_level (the slopes accumulated over all orders, any combination of '
+             'present / absent / empty / unequal cosine and sine lists, are d/du and d/dt of the accumulated sag) and zzQ2d_radial_correct '
+             '(whole routine incl. the m = 0 Qbfs part). (7) x/raytracing/surfaces.py: conic_sag_der_correct (sphere, conic), '
+             'dir_cos_der_correct, off_axis_conic_der_correct, off_axis_conic_sigma_der_correct (HasDerivAt in r and in t, shift along x or '
+             'y, wherever the radicands are positive); q2d_and_der_correct is the bare product rule for arbitrary differentiable parts; '
+             'q2d_and_der_composed_radial / _azimuthal plug the four surface theorems into it: the slopes returned by Q2d_and_der are the '
+             'derivatives of the returned sag zf * sigma^-1 + z_base for ANY departure zf differentiable in u (that compute_z_zprime_Q2d '
+             'supplies such a zf is (6)). TRANSLATED from the current source each run and proved equal to the model (gen_* theorems): seed '
+             'expression / position M-jj / factor jj (quantified over the requested order j), step, read-write indices, zeroed write set, '
+             'loop-start window, coefficient orders and tuple positions, jj > M guard, row 0 = value sweep for the three derivative '
              'routines; closed forms and order/shape shifts of hermite_*_der, laguerre_der, jacobi_der; Hermite and Laguerre value '
              'recurrences; pieces of zernike_nm_der; straight-line bodies of compute_z_zprime_Qbfs/_Qcon (both branches) and the slope terms '
              'of compute_z_zprime_Q2d; the bodies of sphere/conic_sag(_der), der_direction_cosine_spheroid, phi_spheroid, '
              'off_axis_conic_sag/_der/_sigma/_sigma_der (both shift branches, for every interpretation of np.sqrt) and the Q2d_and_der '
-             'assembly. MODELLED AND COMPARED: every routine above, the *_der_seq forms (against one-at-a-time evaluation), '
-             'cheby*_der, zernike_nm_der_seq, compute_z_zprime_Q2d and Q2d_and_der end to end.'),
+             'assembly (up to renaming of locals). The "...Structure = true" conjuncts of the gen_* theorems are Booleans computed by the '
+             'translator from the syntax tree (three-valued: a recognised wrong shape is false and fails the proof; an unrecognised '
+             'spelling is reported as untranslatable and printed as TIE-DEGRADED); Lean sees only the Boolean. COMPARED ONLY (executed, no '
+             'theorem about their own recurrences): the nine *_der_seq routines (against one-at-a-time evaluation, orders up to 25 quick / 30 '
+             'thorough), the cheby*_der constant and legendre_der delegation (instances of (2) but not translated), zernike_nm_der_seq, '
+             'compute_z_zprime_Q2d and Q2d_and_der end to end. EXECUTED INPUT FORMS: float64 / float32 / int64 / int32 / 0-d / 2-D / 3-D / '
+             'strided coordinate arrays (Python and NumPy scalars where the docstring allows them), list / tuple / ndarray (int, f32, f64) '
+             'coefficients evaluated twice on the same objects, zeroed and dirty caller alphas buffers, signed m, cm0=None, the boundary '
+             'points r=0, u=0, u=1, x=+-1, rho=0.'),
     'note': ('partial: the Python loops / NumPy plumbing around the translated steps are tied to the model by execution, not by proof; '
-             'cheby*_der (a constant rescaling of jacobi_der) and the *_der_seq sweeps are checked, not separately proved; the surface '
-             'theorems assume positive radicands (inside the domain); rounding is outside every theorem (comparisons at 1e-9 relative).'),
+             'the *_der_seq sweeps and cheby*_der are compared, not separately proved or translated; the structural facts are opaque '
+             'Booleans for Lean; exact Fraction / polynomial-object streams are skipped with a note when the implementation does not '
+             'accept such objects (only failures on ordinary float inputs count); the surface theorems assume positive radicands '
+             '(inside the domain); field semantics x/0 = 0 where Python raises; rounding is outside every theorem (comparisons at 1e-9 '
+             'relative to max(1, |expected|, row max); 1e-4 for float32 inputs).'),
 }
